@@ -212,6 +212,8 @@ def one_run(prop, seed, k, tier):
             env['decor'] = rng.randrange(1 << 30)
         if rng.random() < 0.25:
             env['knobs'] = rng.randrange(1 << 30)
+        if rng.random() < 0.2:
+            env['omit_idle'] = True
         if env:
             scenario['_env'] = env
     res = run_quiet(prop, scenario)
